@@ -395,23 +395,35 @@ pub fn run(sim: &Sim, cfg: &RunCfg) -> RunOut {
                         v.retain(|r| (r.gpa + r.size - 1) / PAGE <= top);
                         v
                     });
-                    if sim.with_w(|t| t.chance(1, 3)) {
-                        // a change of owner on the same connection first: the statement lets
-                        // nothing but a memory-table change happen to the log, and whatever a
-                        // reset does, it cannot leave old regions logging and new ones not
-                        let r = vmm
-                            .fe
-                            .reset_owner()
-                            .and_then(|_| vmm.fe.set_owner())
-                            .and_then(|_| vmm.fe.get_features())
-                            .and_then(|f| {
-                                vmm.fe.set_protocol_features(VhostUserProtocolFeatures::from_bits_retain(protos))?;
-                                vmm.fe.set_features(f & !spec::VHOST_USER_F_PROTOCOL_FEATURES)
-                            });
-                        if let Err(e) = r {
-                            sim.violation(Violation::new("C15", "control_message_failed", "RESET_OWNER", format!("RESET_OWNER / SET_OWNER / renegotiation under a log in force failed: {e:?}")));
+                    match sim.with_w(|t| t.draw(5)) {
+                        0 | 1 => {
+                            // a change of owner on the same connection first: the statement lets
+                            // nothing but a memory-table change happen to the log, and whatever a
+                            // reset does, it cannot leave old regions logging and new ones not
+                            let r = vmm
+                                .fe
+                                .reset_owner()
+                                .and_then(|_| vmm.fe.set_owner())
+                                .and_then(|_| vmm.fe.get_features())
+                                .and_then(|f| {
+                                    vmm.fe.set_protocol_features(VhostUserProtocolFeatures::from_bits_retain(protos))?;
+                                    vmm.fe.set_features(f & !spec::VHOST_USER_F_PROTOCOL_FEATURES)
+                                });
+                            if let Err(e) = r {
+                                sim.violation(Violation::new("C15", "control_message_failed", "RESET_OWNER", format!("RESET_OWNER / SET_OWNER / renegotiation under a log in force failed: {e:?}")));
+                            }
+                            sim.probe("owner_reset_under_log");
                         }
-                        sim.probe("owner_reset_under_log");
+                        2 => {
+                            // SET_FEATURES once more, this time without VHOST_F_LOG_ALL (bit 26):
+                            // the statement ties logging to the accepted SET_LOG_BASE alone
+                            let r = vmm.fe.get_features().and_then(|f| vmm.fe.set_features(f & !spec::VHOST_USER_F_PROTOCOL_FEATURES & !(1u64 << 26)));
+                            if let Err(e) = r {
+                                sim.violation(Violation::new("C15", "control_message_failed", "SET_FEATURES", format!("SET_FEATURES under a log in force failed: {e:?}")));
+                            }
+                            sim.probe("features_renegotiated_under_log");
+                        }
+                        _ => {}
                     }
                     let res = if *st == 0 {
                         // ADD_MEM_REG of regions that do not overlap the current table
